@@ -142,3 +142,6 @@ Definition Qinf_leb (a b : Qinf) : bool :=
 Definition Qinf_ltb (a b : Qinf) : bool := negb (Qinf_leb b a).
 (* a[i] on a population of abstract individuals *)
 Definition getA {A} (d : A) (l : list A) (i : Z) : A := nth (pyidx (zlen l) i) l d.
+Definition vsubs (a : list Q) (s : Q) : list Q := map (fun x => (x - s)%Q) a.     (* array - scalar *)
+Definition vdivs (a : list Q) (s : Q) : list Q := map (fun x => (x / s)%Q) a.     (* array / scalar *)
+Definition onesQ (n : Z) : list Q := repeat 1%Q (Z.to_nat n).                     (* np.ones_like *)
